@@ -10,17 +10,20 @@ OUT = os.environ.get('VERIF_OUT', VERIF)
 
 class Obl:
     """one obligation = one site of one rule"""
-    __slots__ = ('rule', 'fn', 'construct', 'loc', 'status', 'why', 'detail', 'view', 'nontrivial', 'ordinal')
+    __slots__ = ('rule', 'fn', 'construct', 'loc', 'status', 'why', 'detail', 'view', 'nontrivial', 'ordinal', 'ident')
 
-    def __init__(self, rule, fn, construct, loc, status, why='', detail=None, nontrivial=True):
+    def __init__(self, rule, fn, construct, loc, status, why='', detail=None, nontrivial=True, ident=None):
         assert status in ('discharged', 'finding', 'assumed')
         self.rule, self.fn, self.construct, self.loc = rule, fn, construct, loc
         self.status, self.why, self.detail, self.nontrivial = status, why, detail or {}, nontrivial
         self.view = None
         self.ordinal = 0
+        # identity of the site for the known-findings file when the printed construct contains spelling that a behaviour-preserving
+        # edit may change (names of local aliases, the way a guard is written): what is stored where, from what
+        self.ident = ident
 
     def key(self):
-        return '%s|%s|%s|%d' % (self.rule, self.fn, self.construct, self.ordinal)
+        return '%s|%s|%s|%d' % (self.rule, self.fn, self.ident or self.construct, self.ordinal)
 
     def rec(self):
         loc = self.loc.replace(build.REPO + '/', '') if self.loc else self.loc
@@ -69,7 +72,7 @@ def finish(prop, tier, rules, obls, views, t0, assumptions, explanation, extra=N
     # ordinals among identical constructs in one function (ordered by location)
     groups = collections.defaultdict(list)
     for o in obls:
-        groups[(o.rule, o.fn, o.construct)].append(o)
+        groups[(o.rule, o.fn, o.ident or o.construct)].append(o)
     def lno(o):
         try:
             return int(o.loc.rsplit(':', 1)[1])
